@@ -138,12 +138,88 @@ Definition mon_offset_of (v : list Z) : bool :=
 Definition model_offset_deref (v : list Z) : list Z := [0].
 Definition mon_offset_deref (v : list Z) : bool := nthz 0 v =? 0.
 
+(* ---- 511 / 513 / 514: enum derives (C06) ---- *)
+From BM Require Import Model.DeriveEnum.
+Local Open Scope Z_scope.
+Fixpoint variants_of (v : list Z) (n : nat) : list variant * list Z :=
+  match n, v with
+  | S k, e :: x :: hf :: fz :: r =>
+      let '(vs, rest) := variants_of r k in
+      (mkVar (if e =? 1 then Some x else None) (hf =? 1) (fz =? 1) :: vs, rest)
+  | _, _ => ([], v)
+  end.
+Definition erepr_of (z : Z) : erepr := match z with 0 => RNone | 1 => RC | 2 => RInt | _ => RCInt end.
+
+(* vector: verdict der repr bits signed nvar (explicit value hasfields fields_zeroable)* ncomp compiler_discs* *)
+Definition model_enum (v : list Z) : list Z :=
+  let '(vs, rest) := variants_of (skipn 6 v) (Z.to_nat (nthz 5 v)) in
+  let r := erepr_of (nthz 2 v) in
+  let fieldless := negb (existsb v_has_fields vs) in
+  let verdict := match nthz 1 v with
+                 | 0 => contiguous_accepts r vs
+                 | 1 => if fieldless then checked_fieldless_accepts r vs else negb (match r with RNone => true | _ => false end)
+                 | 2 => zeroable_accepts r vs
+                 | _ => nouninit_accepts r vs
+                 end in
+  let ncomp := nthz 0 rest in
+  (* the discriminants the compiler reports must be the ones the macro computes *)
+  zb verdict :: firstn 5 (tl v) ++ firstn (4 * Z.to_nat (nthz 5 v)) (skipn 6 v) ++
+  (if ncomp =? 0 then [0] else ncomp :: derive_discs vs).
+
+(* C06 judged on the COMPILER's discriminants, independently of the macro model *)
+Definition mon_enum (v : list Z) : bool :=
+  let '(vs, rest) := variants_of (skipn 6 v) (Z.to_nat (nthz 5 v)) in
+  let r := erepr_of (nthz 2 v) in
+  let comp := tl rest in
+  let fieldless := negb (existsb v_has_fields vs) in
+  let accepted := nthz 0 v =? 1 in
+  let is_int := match r with RInt => true | _ => false end in
+  let explicit := negb (match r with RNone => true | _ => false end) in
+  let zero_ok := match zero_variant vs comp with Some x => v_fields_zeroable x | None => false end in
+  match nthz 1 v with
+  | 0 => if fieldless then Bool.eqb accepted (is_int && gap_free comp) else negb accepted
+  | 1 => if fieldless then Bool.eqb accepted is_int else (negb accepted || explicit)
+  | 2 => if fieldless then Bool.eqb accepted (explicit && zero_ok) else (negb accepted || explicit)
+  | _ => Bool.eqb accepted (is_int && fieldless)
+  end.
+
+(* 513: vector: MIN MAX n discs* *)
+Definition model_minmax (v : list Z) : list Z :=
+  match skipn 3 v with
+  | d :: l => lmin d l :: lmax d l :: skipn 2 v
+  | [] => v
+  end.
+Definition mon_minmax (v : list Z) : bool :=
+  match skipn 3 v with
+  | d :: l => (nthz 0 v =? lmin d l) && (nthz 1 v =? lmax d l)
+  | [] => false
+  end.
+
+(* 514: vector: bits signed exhaustive_count n discs* nprobes (value accepted)* *)
+Fixpoint pairs_of (v : list Z) : list (Z * Z) := match v with a :: b :: r => (a, b) :: pairs_of r | _ => [] end.
+Definition model_valid (v : list Z) : list Z :=
+  let n := Z.to_nat (nthz 3 v) in
+  let ds := firstn n (skipn 4 v) in
+  let probes := pairs_of (skipn (5 + n) v) in
+  let vs := map (fun d => mkVar (Some d) false true) ds in
+  firstn 2 v ++ [if nthz 2 v <? 0 then -1 else Z.of_nat (List.length (nodup Z.eq_dec ds))] ++ [nthz 3 v] ++ ds ++ [nthz (4 + n) v] ++
+  flat_map (fun p => [fst p; zb (is_valid_fieldless vs (fst p))]) probes.
+Definition mon_valid (v : list Z) : bool :=
+  let n := Z.to_nat (nthz 3 v) in
+  let ds := firstn n (skipn 4 v) in
+  let probes := pairs_of (skipn (5 + n) v) in
+  ((nthz 2 v <? 0) || (nthz 2 v =? Z.of_nat (List.length (nodup Z.eq_dec ds)))) &&
+  forallb (fun p => Bool.eqb (snd p =? 1) (existsb (Z.eqb (fst p)) ds)) probes.
+
 Definition xmodel2 (a : acase) (v : list Z) : list Z :=
   match a_fn a with
   | 501%N => model_derive_struct v
   | 502%N => model_layout v
   | 503%N => model_offset_of v
   | 504%N => model_offset_deref v
+  | 511%N => model_enum v
+  | 513%N => model_minmax v
+  | 514%N => model_valid v
   | _ => xmodel a v
   end.
 Definition xmonitors2 (a : acase) (v : list Z) : list (N * bool) :=
@@ -152,5 +228,8 @@ Definition xmonitors2 (a : acase) (v : list Z) : list (N * bool) :=
   | 502%N => []
   | 503%N => [(19%N, mon_offset_of v)]
   | 504%N => [(19%N, mon_offset_deref v)]
+  | 511%N => [(6%N, mon_enum v)]
+  | 513%N => [(6%N, mon_minmax v); (17%N, mon_minmax v)]
+  | 514%N => [(6%N, mon_valid v)]
   | _ => xmonitors a v
   end.
